@@ -123,7 +123,7 @@ def run(ctx):
     Ls = range(4, 10) if ctx.thorough() else (4, 6, 7, 9)
     for L in Ls:
         for B in range(1, L + 1):
-            if not ctx.thorough() and B not in (1, 2, 3, 4, L):
+            if not ctx.thorough() and B not in (1, 2, 3, 4, L - 1, L):
                 continue
             for sets in setsA:
                 for ndev in (1, 2, 3):
